@@ -267,9 +267,14 @@ impl BasicLexer {
                         continue;
                     }
                     if !is_basic_digit(pk) {
+                        // Not an exponent: un-read the letter and end the number here.
                         exp = false;
                         s.pop();
                         self.chars.push_front(ch);
+                        if ch == 'D' {
+                            digits -= 8;
+                        }
+                        break;
                     }
                 }
                 if is_basic_digit(pk) {
